@@ -207,7 +207,7 @@ def handle (line : String) : String :=
   | ["styles", kind, defs, xfs] => match parseDefs defs, parseXfs xfs with
     | some defs, some xfs =>
       if kind == "xlsx" then
-        stylesReply (xlsxStyles (defs.map fun d => (NumFmt.decimal d.1, d.2)) (xfs.map fun x => some (NumFmt.decimal x)))
+        stylesReply (xlsxStylesRaw (defs.map fun d => (NumFmt.decimal d.1, d.2)) (xfs.map fun x => some (NumFmt.decimal x)))
       else if kind == "xlsb" then stylesReply (xlsbStyles defs xfs)
       else if kind == "xls" then stylesReply (xlsStyles defs xfs)
       else "bad-op"
